@@ -507,7 +507,7 @@ def rule_R6(res, prog):
             t = prog.resolve_call(fn, e.get("fn")) if e.get("fn") else None
             return ret_values(t, depth + 1) if t is not None else {UNK}
         if e.get("k") == "cond":
-            return expr_values(fn, rd, bid, idx, e.get("t"), depth) | expr_values(fn, rd, bid, idx, e.get("f"), depth)
+            return expr_values(fn, rd, bid, idx, e.get("a"), depth) | expr_values(fn, rd, bid, idx, e.get("b"), depth)
         if e.get("k") == "var" and "id" in e and e.get("sc") == "l":
             out = set()
             for d in cu.defs_at(fn, rd, bid, idx, e["id"]):
@@ -577,6 +577,29 @@ def rule_R6(res, prog):
                     continue
                 n += 1
                 esc = cu.escapes(fn, (fn.entry, None), stores_error, is_target=lambda y, x=x: y is x)
+                if esc is not None and e0 is not None and e0.get("k") == "var":
+                    # single-exit style: the result variable has several definitions; each one that may be MATRIXSSL_ERROR and does
+                    # not delegate must have the *error store in front of it or between it and the return
+                    ds_ = cu.defs_at(fn, rd, b["id"], i, e0["id"])
+                    if ds_ and all(d[2] in ("assign", "decl") and d[3] is not None for d in ds_):
+                        esc2 = None
+                        for d in ds_:
+                            if delegates(d[3]):
+                                continue
+                            vd = narrowed(expr_values(fn, rd, d[0], d[1], d[3], 0), e0.get("n"), gf.get(b["id"], ()))
+                            if ERR not in vd:
+                                continue
+                            dblk = fn.bmap[d[0]]
+                            dx = [xx for (ii, ll, xx) in cu.block_exprs(dblk) if ii == d[1]]
+                            if not dx:
+                                esc2 = esc
+                                break
+                            before = cu.escapes(fn, (fn.entry, None), stores_error, target_expr=lambda y, t0=dx[0]: y is t0)
+                            after = cu.escapes(fn, (d[0], d[1]), stores_error, is_target=lambda y, x=x: y is x)
+                            if before is not None and after is not None:
+                                esc2 = before + after[1:]
+                                break
+                        esc = esc2
                 f_ = None
                 if esc is not None:
                     f_ = Finding(PROP, rid, fn.name, "decoder returns MATRIXSSL_ERROR without storing *error",
